@@ -20,7 +20,7 @@ import sys
 import time
 
 VERIF = "/verif"
-REPO = "/repo"
+REPO = os.environ.get("VERIF_REPO", "/repo")
 COQ = os.path.join(VERIF, "coq")
 WORK = os.path.join(VERIF, "work")
 NCPU = int(os.environ.get("VERIF_JOBS", "16"))
